@@ -2,7 +2,7 @@
 Model driver for C04. Line protocol (see /verif/notes/C04.md):
 
   hist <ttl> <life> <blobtrash 0|1> <conc> <vols> <init> <ops>
-  race <serialize 0|1> <life 0|1> <pre a|g|c> <age o|f> <pop touch|put> <top del|ti> <sched>
+  race <serialize 0|1> <life 0|1> <pre a|g|c> <age o|f> <pop touch|put> <top del|ti|untrash> <sched>
 
 `hist`: logical time in the case line counts units (one unit passes after every op, `tick:d` adds d);
 the model clock runs in 1/256 units: a planted trash deadline (placed half a unit early by the Go driver)
@@ -199,7 +199,8 @@ def race (f : List String) : String :=
     let pre? : Option Pre := if pre = "a" then some .absent else if pre = "g" then some .good else if pre = "c" then some .corrupt else none
     let age? : Option Bool := if age = "o" then some true else if age = "f" then some false else none
     let pop? : Option POp := if pop = "touch" then some .touch else if pop = "put" then some .put else none
-    let top? : Option TOp := if top = "del" then some .del else if top = "ti" then some .ti else none
+    let top? : Option TOp := if top = "del" then some .del else if top = "ti" then some .ti
+      else if top = "untrash" then some .untrash else none
     let sch? : Option (List Bool) := sched.toList.mapM fun ch => if ch = 'P' then some true else if ch = 'T' then some false else none
     match b ser, b life, pre?, age?, pop?, top?, sch? with
     | some ser, some life, some pre, some ageOld, some pop, some top, some sch =>
@@ -212,19 +213,21 @@ def race (f : List String) : String :=
         | .ti => "-"
         | .del => match s.resT with
           | .notFound => "404" | .kept | .trashed => "200:1.0" | .failed => "200:0.1" | _ => "?"
+        | .untrash => match s.resT with | .restored => "200" | .notFound => "404" | _ => "?"
       let get := match s.blk with
         | some i => if s.good i then "200" else "500"
         | none => "404"
       let ageA := if s.aTouched then "0" else if ageOld then "20" else "1"
       let ent (i : Ino) (l : Loc) : List String :=
         let g := if s.good i then "g" else "c"
-        let a := match i with | .a => ageA | .b => "0"
+        let a := match i with | .a => ageA | .b => "0" | .x => if s.xTouched then "0" else "30"
+        let rem := match i with | .x => "3" | _ => "5"
         match l with
         | .blk => [s!"h0:{g}:{a}"]
-        | .trash => [s!"h0.T5:{g}:{a}"]
+        | .trash => [s!"h0.T{rem}:{g}:{a}"]
         | .tmp => ["?tmp"]
         | _ => []
-      let all := C04Drv.sortStrings (ent .a s.locA ++ ent .b s.locB)
+      let all := C04Drv.sortStrings (ent .a s.locA ++ ent .b s.locB ++ ent .x s.locX)
       let dir := if all.isEmpty then "-" else ",".intercalate all
       s!"P={pr} T={tres} get={get} dir={dir} trace={if tr.isEmpty then "-" else ",".intercalate tr}"
     | _, _, _, _, _, _, _ => "bad-op"
